@@ -368,6 +368,13 @@ func genC09(seed, index uint64, tier string) *Plan {
 		if g.Chance(0.7) {
 			p.Backend = "memory"
 		}
+		if g.Chance(0.12) {
+			// one Secrets/ConfigMaps backend as Configuration.Init builds it, shared by several goroutines; in half of the
+			// runs the Kubernetes client cannot be constructed
+			p.Backend = g.Pick("secrets", "configmaps")
+			p.CoRelease = "inner"
+			p.Variant = "race-lazy-" + g.Pick("ok", "fail")
+		}
 	}
 	return p.Clone()
 }
